@@ -514,6 +514,9 @@ class Core(composites.Composite):
         aName = a.getName()
 
         spatialLocator = spatialLocator or a.spatialLocator
+        if spatialLocator is not None and spatialLocator.grid is not self.spatialGrid:
+            # a detached / foreign locator names a cell by its indices: test the core's own cell
+            spatialLocator = self.spatialGrid[tuple(spatialLocator.indices)]
 
         if spatialLocator is not None and spatialLocator in self.childrenByLocator:
             raise ValueError(
